@@ -123,8 +123,7 @@ class ScheduledFiniteThrust(ContinuousStateChangeEvent, metaclass=ABCMeta):
             :meth:`.ContinuousStateChangeEvent.__call__()`
         """
         _ival = self.start_time - time
-        _fval = self.end_time - time
-        if fpe_equals(_ival, 0.0) or fpe_equals(_fval, 0.0):
+        if fpe_equals(_ival, 0.0):
             return 0.0
         return _ival
 
@@ -157,11 +156,48 @@ class ScheduledFiniteThrust(ContinuousStateChangeEvent, metaclass=ABCMeta):
         See Also:
             :meth:`.ContinuousStateChangeEvent.getStateChangeCallback()`
         """
-        if fpe_equals(self.end_time - time, 0.0):
-            EventStack.pushEvent(EventRecord(f"Finite thrust ended at {time}", self.agent_id))
-            return None
         EventStack.pushEvent(EventRecord(f"Finite thrust at {time}", self.agent_id))
         return self.thrust_func
+
+    @property
+    def end_event(self) -> ScheduledFiniteThrustEnd:
+        """:class:`.ScheduledFiniteThrustEnd`: companion event that interrupts integration when this thrust ends."""
+        return ScheduledFiniteThrustEnd(self)
+
+
+class ScheduledFiniteThrustEnd:
+    """Interrupts integration at the end time of a :class:`.ScheduledFiniteThrust` to switch the thrust off.
+
+    The event function of :class:`.ScheduledFiniteThrust` only changes sign at the start time, so the
+    integrator cannot find the end of the thrust with it unless a step happens to land there exactly.
+    """
+
+    terminal = True
+    """bool: Whether to terminate integration if this event occurs."""
+
+    direction = 0.0
+    """float: Value of zero indicates that either direction of zero crossing should trigger this event."""
+
+    def __init__(self, thrust_event: ScheduledFiniteThrust):
+        """Instantiate a :class:`.ScheduledFiniteThrustEnd` object.
+
+        Args:
+            thrust_event (:class:`.ScheduledFiniteThrust`): continuous maneuver whose end this event marks
+        """
+        self.thrust_event = thrust_event
+
+    def __call__(self, time: ScenarioTime, state: ndarray):
+        """When this function returns zero during integration, it interrupts the integration process."""
+        _fval = self.thrust_event.end_time - time
+        if fpe_equals(_fval, 0.0):
+            return 0.0
+        return _fval
+
+    def getStateChangeCallback(self, time: ScenarioTime):
+        """Return ``None``: no thrust is applied once the continuous maneuver has ended."""
+        EventStack.pushEvent(
+            EventRecord(f"Finite thrust ended at {time}", self.thrust_event.agent_id),
+        )
 
 
 class ScheduledFiniteManeuver(ScheduledFiniteThrust):
